@@ -8,6 +8,7 @@ CONSTANTS
   CloserSeesCtx = TRUE
   CloseOn = "reader"
   SendSelectsDone = TRUE
+  FastPath = FALSE
 INVARIANTS EofComplete
 PROPERTIES Settles
 CHECK_DEADLOCK FALSE
